@@ -138,6 +138,7 @@ class SSHChannel(Generic[AnyStr], SSHPacketHandler):
         self._recv_paused: Union[bool, str] = 'starting'
         self._recv_eof_pending = False
         self._recv_buf: List[Tuple[bytes, DataType]] = []
+        self._recv_buf_len = 0
 
         self._request_queue: List[Tuple[str, SSHPacket, bool]] = []
 
@@ -268,6 +269,7 @@ class SSHChannel(Generic[AnyStr], SSHPacketHandler):
 
         # Discard unreceived data
         self._recv_buf = []
+        self._recv_buf_len = 0
         self._recv_paused = False
 
         # If recv is close_pending, we know send is already closed
@@ -344,7 +346,9 @@ class SSHChannel(Generic[AnyStr], SSHPacketHandler):
         """Flush as much data in the recv buffer as the application allows"""
 
         while self._recv_buf and not self._recv_paused:
-            self._deliver_data(*self._recv_buf.pop(0))
+            data, datatype = self._recv_buf.pop(0)
+            self._recv_buf_len -= len(data)
+            self._deliver_data(data, datatype)
 
         if not self._recv_buf and self._recv_paused != 'starting':
             if self._encoding and not exc and \
@@ -417,6 +421,7 @@ class SSHChannel(Generic[AnyStr], SSHPacketHandler):
 
         if self._recv_paused:
             self._recv_buf.append((data, datatype))
+            self._recv_buf_len += len(data)
         else:
             self._deliver_data(data, datatype)
 
@@ -589,7 +594,7 @@ class SSHChannel(Generic[AnyStr], SSHPacketHandler):
 
         datalen = len(data)
 
-        if datalen > self._recv_window:
+        if datalen > self._recv_window - self._recv_buf_len:
             raise ProtocolError('Window exceeded')
 
         self.logger.debug2('Received %d data byte%s', datalen,
@@ -613,7 +618,7 @@ class SSHChannel(Generic[AnyStr], SSHPacketHandler):
 
         datalen = len(data)
 
-        if datalen > self._recv_window:
+        if datalen > self._recv_window - self._recv_buf_len:
             raise ProtocolError('Window exceeded')
 
         self.logger.debug2('Received %d data byte%s from %s', datalen,
